@@ -359,6 +359,17 @@ def run_shard(shard, acc):
         if shard["kind"] == "compile":
             cfgs = [{"labels": False, "no_terminator_p": 0.0}, {}]
             i = 0
+            # one fixed program with the constructs whose printing depends on the settings of the document
+            fixed = ("def 0 for actor 0 {\n    dungeon_mode(3) = 0;\n    dungeon_mode(4) = 1;\n    dungeon_mode(5) = 2;\n    dungeon_mode(6) = 3;\n"
+                     "    switch (dungeon_mode(7)) {\n        case 0:\n            a();\n            break;\n        case 1:\n            b();\n            break;\n"
+                     "        case 2:\n            c();\n            break;\n        case 3:\n            d();\n            break;\n    }\n"
+                     "    if ($PERFORMANCE_PROGRESS_LIST[3]) {\n        e();\n    }\n    $PERFORMANCE_PROGRESS_LIST[4] = 1;\n    end;\n}\n"
+                     "def 1 for object 0 {\n    f();\n    hold;\n}\ndef 2 for performer 0 {\n    g();\n    hold;\n}\n")
+            root = os.path.join(base, "fixed")
+            os.makedirs(root)
+            with open(os.path.join(root, "main.exps"), "w", encoding="utf-8") as f:
+                f.write(fixed)
+            compile_case(acc, root, "main.exps", [], t2a.parse_program(fixed), None, {"name": "fixed", "text": fixed, "structured": True}, structured=True, rnd=rnd)
             for cfg in cfgs:
                 for name, prog in exps_workload({"kind": "random", "seed": shard["seed"] + len(cfg), "n": shard["n"], "depth": 2, "cfg": cfg}):
                     root = os.path.join(base, f"c{i}")
